@@ -264,11 +264,15 @@ def real_part(rep):
         for strat, o in outs.items():
             if len(o) > 1:
                 ks = list(o)
+                normed = {FRESH_NAME.sub('x#__fresh', (k or b'').decode())
+                          for k in ks}
                 rep.violation(f'C18|real-run-output-differs|{strat}', {
                     'brief': f'bin/ddsmt -j 1 --strategy {strat}: output '
                              f'bytes differ between (seed, delayed '
                              f'invocation) {o[ks[0]][:2]} and {o[ks[1]][:2]}:'
-                             f' {ks[0]!r} vs {ks[1]!r}'})
+                             f' {ks[0]!r} vs {ks[1]!r}'},
+                              kf_sig='fresh-name-numbering'
+                              if len(normed) == 1 else None)
     rep.count('traces_validated_against_impl', rep.coverage.get('real_runs',
                                                                  0))
 
